@@ -158,6 +158,10 @@ func (d *Downstream) closeWithError(ctx context.Context, cause error) (err error
 
 // ReadDataPointsは、ダウンストリームデータポイントを受信します。
 func (d *Downstream) ReadDataPoints(ctx context.Context) (*DownstreamChunk, error) {
+	// a closed stream takes precedence over chunks that are still buffered
+	if d.isClosed() {
+		return nil, errors.ErrStreamClosed
+	}
 	select {
 	case <-d.ctx.Done():
 		return nil, errors.ErrStreamClosed
@@ -184,6 +188,10 @@ func (d *Downstream) ReadDataPoints(ctx context.Context) (*DownstreamChunk, erro
 
 // ReadMetadataは、ダウンストリームメタデータを受信します。
 func (d *Downstream) ReadMetadata(ctx context.Context) (*DownstreamMetadata, error) {
+	// a closed stream takes precedence over metadata that is still buffered
+	if d.isClosed() {
+		return nil, errors.ErrStreamClosed
+	}
 	select {
 	case <-d.ctx.Done():
 		return nil, errors.ErrStreamClosed
